@@ -327,6 +327,19 @@ class Interp:
             if all(is_num(a) for a in args):
                 return getattr(math, short)(*args)
             return Op("py_" + short, args)
+        if name == "torch._C._nn._parse_to" and self.faithful_registry:
+            # (device, dtype, non_blocking, memory_format) of Module.to's arguments: keywords, or positional dtype / device / tensor
+            dev, dt = kwargs.get("device"), kwargs.get("dtype")
+            for a_ in args:
+                if isinstance(a_, Sym) and "dtype" in a_.tags or isinstance(a_, ExtRef) and a_.name.startswith("torch.") and a_.name.split(".")[-1] in TORCH_DTYPES:
+                    dt = a_
+                elif isinstance(a_, Sym) and "device" in a_.tags or isinstance(a_, str):
+                    dev = a_
+                elif isinstance(a_, Term):
+                    dev, dt = Op("attr_device", (a_,)), Op("attr_dtype", (a_,))
+                elif a_ is not None:
+                    raise Unsupported(f"_parse_to argument {a_!r}")
+            return (dev, dt, False, None)
         if name in ("copy.copy",):
             o = args[0]
             if isinstance(o, Obj):
@@ -1482,6 +1495,7 @@ MODULE_METHODS = {"register_buffer", "get_buffer", "register_forward_hook", "tra
                   "named_parameters", "zero_grad", "state_dict", "load_state_dict", "buffers", "named_buffers", "modules",
                   "float", "double", "half", "cpu", "cuda", "apply", "requires_grad_"}
 
+TORCH_DTYPES = {"float16", "float32", "float64", "bfloat16", "half", "float", "double", "int8", "int16", "int32", "int64", "uint8", "long", "int", "short", "bool", "complex64", "complex128"}
 BUILTINS = {"id", "callable", "len", "range", "list", "tuple", "map", "zip", "any", "all", "isinstance", "issubclass", "hasattr", "getattr",
             "setattr", "int", "float", "str", "repr", "abs", "min", "max", "sum", "round", "sorted", "reversed", "print",
             "iter", "dict", "type", "super", "ValueError", "TypeError", "RuntimeError", "KeyError", "AttributeError",
